@@ -37,7 +37,10 @@ def check(ctx):
     # ---- C12.1 ---------------------------------------------------------------------------------
     o = Ob('C12.1', 'K2', 'create_work_order: False <=> duplicate; otherwise enter_queue recorded, order appended at the tail with the reported capacity, scan triggered, True')
     obs.append(o)
-    g = ctx.graph(M, 'create_work_order', boolean=True, opaque=('_is_work_order_requested', 'try_working_requests', '_record_work_order_datapoint'))
+    RH = dv.record_helper(P, M)
+    if RH is None:
+        raise AnalysisError('Maintainer: the helper that records work-order datapoints was not found')
+    g = ctx.graph(M, 'create_work_order', boolean=True, opaque=('_is_work_order_requested', 'try_working_requests', RH[0]))
     fn = P.method(M, 'create_work_order')[1]
     dup = [n for n in g.nodes.values() if n.kind == 'cond' and isinstance(n.ast, ast.Call) and call_attr(n.ast) == '_is_work_order_requested']
     o.count()
@@ -60,8 +63,9 @@ def check(ctx):
             st = after
             for cl in calls_at(an.g, n):
                 nm = call_attr(cl)
-                if nm == '_record_work_order_datapoint' and cl.args and isinstance(cl.args[0], ast.Constant):
-                    st = st.with_flag('rec:' + str(cl.args[0].value) + ':' + ast.unparse(cl.args[1]) if len(cl.args) > 1 else 'rec:?')
+                rc = dv.record_call(cl, RH)
+                if rc is not None:
+                    st = st.with_flag('rec:' + rc[0] + ':' + rc[1][0] if rc[1] else 'rec:?')
                 if nm == 'append' and is_self_attr(cl.func.value, '_request_queue'):
                     st = st.with_flag('queued:' + ast.unparse(cl.args[0]))
                 if nm in ('insert', 'appendleft', 'extend') and is_self_attr(cl.func.value, '_request_queue'):
@@ -276,7 +280,8 @@ def check(ctx):
 
 def seq_check(ctx, M, meth, o, N, need, forbid):
     P = ctx.P
-    g = ctx.graph(M, meth, opaque=('try_working_requests', '_record_work_order_datapoint', 'add_cost'))
+    RH = dv.record_helper(P, M)
+    g = ctx.graph(M, meth, opaque=('try_working_requests', RH[0], 'add_cost'))
     fn = P.method(M, meth)[1]
     rq = fn.args.args[1].arg
     defs = single_defs(fn)
@@ -291,8 +296,9 @@ def seq_check(ctx, M, meth, o, N, need, forbid):
         a = n.ast
         for cl in calls_at(an.g, n):
             nm = call_attr(cl)
-            if nm == '_record_work_order_datapoint' and cl.args and isinstance(cl.args[0], ast.Constant):
-                bump('rec:' + str(cl.args[0].value) if len(cl.args) > 1 and ast.unparse(cl.args[1]) == rq else 'rec-wrong-order')
+            rc = dv.record_call(cl, RH)
+            if rc is not None:
+                bump('rec:' + rc[0] if rc[1] and rc[1][0] == rq else 'rec-wrong-order')
             if nm in ('start_work', 'end_work') and isinstance(cl.func, ast.Attribute):
                 good = ast.unparse(cl.func.value) == f'{rq}.target' and [ast.unparse(x) for x in cl.args] == [f'{rq}.tag']
                 bump('hook:' + nm if good else 'hook-wrong-args')
